@@ -28,6 +28,8 @@ if pkgs == ["./..."]:
 else:
     ran_pk = {t.split("::")[0] for t in passed}
     want = {t for t in stable if t.split("::")[0] in ran_pk}
+# the suite itself rewrites these two tracked files (plzinit test appends to its BUILD, go adds a go directive): put them back
+subprocess.run(["git", "-C", "/repo", "checkout", "--", "src/plzinit/BUILD", "test/go.mod"])
 missing = sorted(want - passed)
 print("stable tests expected %d, passed %d, missing %d" % (len(want), len(want & passed), len(missing)))
 for m in missing[:40]:
